@@ -1,0 +1,12 @@
+//! Verification seam. Compiled only with `--cfg repe_verif` (never in a shipped
+//! build): re-exports the deterministic-simulation replacements for the std
+//! pieces (threads, locks, channels, clock, sockets, hash maps) that the modules
+//! switch to under that flag. The `simkernel` crate exists only in the
+//! verification build's manifest.
+pub use ::simkernel::*;
+
+/// Stand-in for the `std` paths that are spelled out in full inside function
+/// bodies (`std::thread::sleep(..)`); brought in block-scoped as `std`.
+pub mod std_shim {
+    pub use ::simkernel::thread;
+}
